@@ -84,6 +84,16 @@ def gen(rng, tier):
     from . import c09 as C09
     for c in C09.pattern_history_cases():
         yield {"segs": c["query"]["first"]["segs"], "doc": c["doc"], "seed": 12}
+    # operands in which one container value occurs twice (the shared-parts route makes them one object): equal at the first
+    # occurrence, different at the second
+    rep = [[{"k": 1}, {"k": 1}], [{"k": 1}, {"k": 2}], [[1], [1]], [[1], [2]], {"x": [1], "y": [1]}, {"x": [1], "y": [2]}, [[], []], [[], [0]], [{}, {}], [{}, {"a": {}}]]
+    for l in rep:
+        for r in rep:
+            for op in OPS:
+                yield {"segs": [["list", ["filter", ["op", op, ["self", ["sel", ["name", "l"]]], ["self", ["sel", ["name", "r"]]]]]]],
+                       "doc": [{"l": l, "r": r}, {"l": r, "r": l}], "seed": 13}
+            yield {"segs": [["list", ["name", "items"]], ["list", ["filter", ["op", "==", ["self"], ["root", False, ["sel", ["name", "ref"]]]]]]],
+                   "doc": {"items": [l, r, l], "ref": r}, "seed": 14}
     names = ["a", "b", "c", "d", "0", "1"]
     n = 12000 if thorough else 1200
     for _ in range(n):
@@ -137,6 +147,9 @@ def impl(case):
     except Exception as e:  # noqa: BLE001
         out["matches"] = ["err", exc_name(e)]
     out["doc_unchanged"] = SX.canon(obj) == SX.canon(case["doc"])
+    if isinstance(out["matches"], list) and out["matches"][:1] != ["err"]:
+        from .evalbase import entry_points
+        out["entry_points"] = entry_points(text, case["doc"], reference=["ok", [m[2] for m in out["matches"]]])
     return out
 
 
